@@ -9,34 +9,29 @@ use crate::trace::{Drain, Event, Trace};
 
 pub struct C19;
 
-/// Execute an event on a plain terminal and return the changed-line report of the call(s).
-fn apply_report(vt: &mut avt::Vt, e: &Event) -> Option<Vec<usize>> {
+/// Execute an event on a plain terminal and return the changed-line report of the call(s) and the
+/// lines handed out through `Changes.scrollback` (drained completely).
+fn apply_report(vt: &mut avt::Vt, e: &Event) -> (Option<Vec<usize>>, Vec<avt::Line>) {
     match e {
-        Event::FeedStr { s, .. } => {
+        Event::FeedStr { s, .. } | Event::Inert { s, .. } => {
             let ch = vt.feed_str(s);
             let lines = ch.lines.clone();
-            ch.scrollback.for_each(drop);
-            Some(lines)
-        }
-        Event::Inert { s, .. } => {
-            let ch = vt.feed_str(s);
-            let lines = ch.lines.clone();
-            ch.scrollback.for_each(drop);
-            Some(lines)
+            let out: Vec<avt::Line> = ch.scrollback.collect();
+            (Some(lines), out)
         }
         Event::Feed { s } => {
             for ch in s.chars() {
                 vt.feed(ch);
             }
-            None
+            (None, vec![])
         }
         Event::Resize { cols, rows, .. } => {
             let ch = vt.resize(*cols, *rows);
             let lines = ch.lines.clone();
-            ch.scrollback.for_each(drop);
-            Some(lines)
+            let out: Vec<avt::Line> = ch.scrollback.collect();
+            (Some(lines), out)
         }
-        _ => None,
+        _ => (None, vec![]),
     }
 }
 
@@ -91,7 +86,7 @@ impl Check for C19 {
         match r.below(5) {
             4 => {
                 // C0 controls are executed inside an escape sequence without ending it
-                let c0 = *r.pick(&["\x00", "\x07", "\n", "\r", "\x08", "\x00\x00", "\x1f"]);
+                let c0 = *r.pick(&["\x00", "\x07", "\n", "\r", "\x08", "\x00\x00", "\x1f", "\x7f", "\x7f\x7f", "\x00\x7f"]);
                 evs.push(Event::FeedStr { s: format!("\x1b{}c", c0), drain: Drain::All });
                 st.bump("ris_with_c0_inside");
             }
@@ -217,12 +212,26 @@ impl Check for C19 {
         }
         let mut cont_events = 0u64;
         for (j, e) in t.events.iter().enumerate().skip(ei + 1) {
-            let ra = catch_avt(|| a.apply(e).lines);
+            let ra = catch_avt(|| {
+                let rep = a.apply(e);
+                (rep.lines, rep.drained, rep.dropped_nonempty)
+            });
             let rb = catch_avt(|| apply_report(&mut b, e));
             match (ra, rb) {
-                (Ok(la), Ok(lb)) => {
+                (Ok((la, sa, partial)), Ok((lb, sb))) => {
                     if !matches!(e, Event::Inert { .. }) && la != lb {
                         return Verdict::Violation { rule: "C19/changed-lines".into(), detail: format!("continuation event #{} ({}): the reset terminal reports changed lines {:?}, the fresh one {:?}", j, crate::trace::event_brief(e).chars().take(50).collect::<String>(), la, lb) };
+                    }
+                    // the lines handed out through Changes.scrollback (only judged when the
+                    // consumer of the original drained its iterator completely, in one call)
+                    let whole = matches!(e, Event::FeedStr { drain: Drain::All, .. } | Event::Resize { drain: Drain::All, .. });
+                    if whole && !partial {
+                        if !sa.is_empty() || !sb.is_empty() {
+                            st.bump("continuation_calls_handing_out_scrollback");
+                        }
+                        if sa != sb {
+                            return Verdict::Violation { rule: "C19/scrollback-handed-out".into(), detail: format!("continuation event #{} ({}): the reset terminal hands out {} lines through Changes.scrollback, the fresh one {} (or their content differs)", j, crate::trace::event_brief(e).chars().take(50).collect::<String>(), sa.len(), sb.len()) };
+                        }
                     }
                 }
                 (Err(_), Err(_)) => {
@@ -253,12 +262,12 @@ impl Check for C19 {
     }
     fn meta(&self) -> Meta {
         Meta {
-            rule: "chaos history (parser left in any state by partial tokens, alternate screen, modes, tabs, margins, charsets, saved contexts, resizes, damage) -> ESC c (own call, feed() loop, glued to the continuation, or cut between ESC and c) -> continuation (input and resizes); twin: a fresh Vt of the current size and limit fed the same continuation; compared after the reset and after every continuation event: view, lines(), cursor incl. visibility, cursor-key mode, text(), dump() and the changed-line report of each call; the position of the reset is found by the reference parser; non-trivial = some history before the reset; distinct = (final screen, parser state before reset, alternate flag)",
+            rule: "chaos history (parser left in any state by partial tokens, alternate screen, modes, tabs, margins, charsets, saved contexts, resizes, damage) -> ESC c (own call, feed() loop, glued to the continuation, or cut between ESC and c) -> continuation (input and resizes); twin: a fresh Vt of the current size and limit fed the same continuation; compared after the reset and after every continuation event: view, lines(), cursor incl. visibility, cursor-key mode, text(), dump(), the changed-line report of each call and the lines each continuation call hands out through Changes.scrollback; the position of the reset is found by the reference parser; non-trivial = some history before the reset; distinct = (final screen, parser state before reset, alternate flag)",
             assumptions: vec!["'fresh terminal' = Vt::builder().size(current).scrollback_limit(configured).build()", "a panic on both sides is C01's subject"],
             real: vec!["avt::Vt (both twins)", "avt::parser::Parser (lock-step)"],
             simulated: vec!["App", "Pipe (cuts, damage, truncation)", "Window", "reset-recovery twin"],
             model: vec!["RefParser (locates the RIS)", "hidden-state tracker (alternate flag, probes)"],
-            probes: vec!["ris_from_non_ground_parser", "ris_on_alternate", "runs_with_continuation", "resize_events"],
+            probes: vec!["ris_from_non_ground_parser", "ris_on_alternate", "runs_with_continuation", "continuation_calls_handing_out_scrollback", "ris_with_c0_inside", "resize_events"],
             fault_kinds: vec!["resize_events", "resize_mid_sequence", "resize_while_alternate", "damaged_tokens", "feed_char_calls", "env_events_inside_token"],
         }
     }
